@@ -1,5 +1,7 @@
 """C28 — framework-generated redirects never point to another site."""
+import itertools
 import os
+import re
 import shutil
 import tempfile
 import urllib.parse
@@ -8,74 +10,133 @@ from harness import gallina as G
 from harness.framework import SCRATCH
 
 ID = "C28"
-COQ_DIRS = ["C28"]
+COQ_DIRS = ["C28", "Gen"]
 PROPERTY_FILE = "C28/Property.v"
 RUN_IMPORTS = "From TV Require Import C28.Model C28.Run."
 RUN_FN = "run_case"
 CHECK_FN = "check_case"
 INPUT_TYPE = "input"
 TRUSTED_BASE = [
-    "request parsing/routing (request line -> request.path/query/uri, catch-all route) is exercised, not modelled; the model starts from (method, path, query)",
-    "urllib.parse.urlsplit(login_url).scheme (configuration) is computed by the stdlib and passed in; urllib.parse.urlencode is modelled as quote_plus over UTF-8 and tied by the correspondence",
-    "for the static handler the filesystem fact 'the path resolves to a directory inside the root' is arranged by the harness fixture",
+    "translators/c28_src.py (ast reader of RequestHandler.redirect, the removeslash/addslash/authenticated wrappers, get_login_url and the directory "
+    "block of validate_absolute_path; fails closed; Gen/C28_equiv.v proves the emitted functions equal to the model's)",
+    "URL routing (catch-all patterns) and the HTTP/1.1 framing around the request line are exercised, not modelled; the model starts from "
+    "(method, request target, Host) and itself does the request-line/Host validation, uri.partition('?'), method dispatch, the decorators, "
+    "RequestHandler.redirect, urlsplit(login_url).scheme, full_url() and urlencode(next=...)",
+    "for the static handler the filesystem facts (resolved path outside the root / directory / file / missing, index file present) are computed by the "
+    "harness with os.path on the url-unescaped captured path and handed to the model as the environment's answer",
 ]
-ASSUMPTIONS = ["same-host theorems assume an origin-form request target (path starts with '/'); the absolute-form case is the open known finding 'absolute-form-target'"]
-RULE = ("request targets built from slash runs, host-like segments, backslashes, encoded slashes, schemes and queries x {GET, HEAD, POST} x "
-        "{removeslash, addslash, static directory, authenticated with 4 login URLs}; distinct by input; non-trivial = a redirect or an error status was produced")
-KINDS = ["KRemove", "KAdd", "KStatic", "KAuth"]
-LOGINS = ["/login", "/login?x=1", "http://sso.example/login", "https://sso.example/l?"]
+ASSUMPTIONS = ["same-host theorems assume an origin-form request target (path starts with '/'); safe_location is proved for every target that does not start "
+               "with 'scheme:'; the absolute-form case is the open known finding 'absolute-form-target'"]
+RULE = ("request targets built from slash runs, host-like segments, backslashes, encoded slashes, schemes and queries x methods {GET, HEAD, POST, PUT, "
+        "OPTIONS, lower-case, unknown, malformed} x Host values (valid and invalid) x {removeslash, addslash, static handler with/without default file "
+        "over a fixture tree, authenticated with 20 login URLs / no login URL / logged-in user, self.redirect with URL/permanent/status/after-flush}; "
+        "distinct by input; non-trivial = a redirect or an error status was produced")
+LOGINS = ["/login", "/login?x=1", "http://sso.example/login", "https://sso.example/l?", "login", "//sso.example/l", " http://x/l", "ht\ttp://x/l",
+          "1http://x", "http:/l", "/l:x", "/l#f", "HTTP://X", "x+y-z.1:rest", "/登录", "a:?", ":x", "http", "/caf\xe9", "\nhttps://x/l", None]
+HOSTS = ["h.example", "h.example", "h.example", "h.example:8080", "[::1]:80", "", "h%41", "H.EXAMPLE", "evil.com"]
+BAD_HOSTS = ["a,b", "a b", "h/evil", "h%4", "h%zz", "user:pw@h", "h?x", "caf\xe9", "h#x", "h\\x", "%", "h%4%41"]
+METHODS = ["GET", "GET", "GET", "HEAD", "HEAD", "POST"]
+ODD_METHODS = ["PUT", "DELETE", "PATCH", "OPTIONS", "get", "Head", "FOO", "TRACE", "CONNECT", "G-T", "GE T", "", "GET\t", "M!#$%&'*+-.^_`|~9", "G(T", "G\xe9T", "G:T"]
 
 _state = {}
 
 
-def apps():
-    if _state:
-        return _state
+def pre_build():
+    """regenerate Gen/C28_src.v (redirect, the slash/authenticated wrappers, the static directory block) from the
+    working tree; fails closed"""
+    import importlib
+    import sys
+    from harness.framework import REPO, COQ
+    sys.path.insert(0, os.path.join(os.path.dirname(COQ), "translators"))
+    import c28_src
+    importlib.reload(c28_src)
+    c28_src.emit(REPO, os.path.join(COQ, "Gen", "C28_src.v"))
+
+
+def fixture_root():
+    if "root" not in _state:
+        root = tempfile.mkdtemp(prefix="c28_", dir=SCRATCH)
+        os.makedirs(os.path.join(root, "dir", "sub"))
+        with open(os.path.join(root, "dir", "index.html"), "w") as f:
+            f.write("idx")
+        with open(os.path.join(root, "file.txt"), "w") as f:
+            f.write("file")
+        _state["root"] = root
+        import atexit
+        atexit.register(lambda: shutil.rmtree(root, ignore_errors=True))
+    return _state["root"]
+
+
+STATIC_PATTERN = r"(?:http://[^/]*)?/*(.*)"
+
+
+def app_for(case):
     from tornado import web
-    root = tempfile.mkdtemp(prefix="c28_", dir=SCRATCH)
-    os.makedirs(os.path.join(root, "dir"))
-    open(os.path.join(root, "dir", "index.html"), "w").write("idx")
+    kind = case["kind"]
+    key = kind
+    if kind == "KAuth":
+        key = ("KAuth", case["login"])
+    elif kind == "KStatic":
+        key = ("KStatic", bool(case["default"]))
+    if key in _state:
+        return _state[key]
+    if kind in ("KRemove", "KAdd"):
+        deco = web.removeslash if kind == "KRemove" else web.addslash
 
-    class Rm(web.RequestHandler):
-        @web.removeslash
-        def get(self):
-            self.write("ok")
-        head = post = get
-
-    class Add(web.RequestHandler):
-        @web.addslash
-        def get(self):
-            self.write("ok")
-        head = post = get
-
-    def mk_auth(login):
+        class Sl(web.RequestHandler):
+            @deco
+            def get(self):
+                self.write("ok")
+            head = post = get
+        app = web.Application([(r".*", Sl)])
+    elif kind == "KStatic":
+        opts = {"path": fixture_root()}
+        if case["default"]:
+            opts["default_filename"] = "index.html"
+        app = web.Application([(STATIC_PATTERN, web.StaticFileHandler, opts)])
+    elif kind == "KAuth":
         class Au(web.RequestHandler):
             def get_current_user(self):
-                return None
+                return self.request.headers.get("X-User")
 
             @web.authenticated
             def get(self):
                 self.write("ok")
             head = post = get
-        return web.Application([(r".*", Au)], login_url=login)
+        settings = {} if case["login"] is None else {"login_url": case["login"]}
+        app = web.Application([(r".*", Au)], **settings)
+    elif kind == "KRedirect":
+        class Rd(web.RequestHandler):
+            cfg = None
 
-    _state["KRemove"] = web.Application([(r".*", Rm)])
-    _state["KAdd"] = web.Application([(r".*", Add)])
-    _state["KStatic"] = web.Application([(r"(?:http://[^/]*)?/*(.*)", web.StaticFileHandler, {"path": root, "default_filename": "index.html"})])
-    for lg in LOGINS:
-        _state["KAuth" + lg] = mk_auth(lg)
-    _state["root"] = root
-    import atexit
-    atexit.register(lambda: shutil.rmtree(root, ignore_errors=True))
-    return _state
+            def get(self):
+                c = Rd.cfg
+                if c["flush"]:
+                    self.flush()
+                kw = {}
+                if c["permanent"]:
+                    kw["permanent"] = True
+                if c["status"] is not None:
+                    kw["status"] = c["status"]
+                self.redirect(c["url"], **kw)
+            head = post = get
+        app = web.Application([(r".*", Rd)])
+        app._c28_handler = Rd
+    else:
+        raise ValueError(kind)
+    _state[key] = app
+    return app
 
 
 def run_impl(case):
     from tornado.httpserver import HTTPServer
     from harness.fake_iostream import FakeIOStream, EOF
     from harness.vclock import run_virtual, settle
-    app = apps()[case["kind"] + (case["login"] if case["kind"] == "KAuth" else "")]
-    raw = ("%s %s HTTP/1.1\r\nHost: h.example\r\n\r\n" % (case["method"], case["target"])).encode("latin-1")
+    app = app_for(case)
+    if case["kind"] == "KRedirect":
+        app._c28_handler.cfg = case
+    extra = "X-User: u\r\n" if case.get("user") else ""
+    raw = ("%s %s HTTP/1.1\r\nHost: %s\r\n%s\r\n" % (case["method"], case["target"], case["host"], extra)).encode("latin-1")
 
     async def scenario(loop):
         srv = HTTPServer(app)
@@ -92,30 +153,57 @@ def run_impl(case):
         wire = run_virtual(scenario)
     finally:
         logging.disable(logging.NOTSET)
-    head = wire.split(b"\r\n\r\n", 1)[0].decode("latin-1")
-    lines = head.split("\r\n")
-    if not lines or not lines[0].startswith("HTTP/1.1 "):
+    head = wire.split(b"\r\n\r\n", 1)[0]
+    lines = head.split(b"\r\n")
+    if not lines or not lines[0].startswith(b"HTTP/1.1 "):
         return [G.Tag("NoResponse")]
-    status = int(lines[0].split(" ")[1])
+    status = int(lines[0].split(b" ")[1])
     loc = None
     for ln in lines[1:]:
-        if ln.lower().startswith("location:"):
-            loc = ln.split(":", 1)[1].strip()
+        if ln.lower().startswith(b"location:"):
+            v = ln[len(b"location:"):]
+            loc = v[1:] if v.startswith(b" ") else v     # exactly the value bytes (no strip)
     return [status, loc]
 
 
-def parts(case):
-    path, _, query = case["target"].partition("?")
-    return path, query
+def fs_facts(case):
+    """The environment's answer for the static handler, computed independently of web.py."""
+    path = case["target"].partition("?")[0]
+    m = re.match(STATIC_PATTERN + "$", path)
+    captured = m.group(1)
+    arg = urllib.parse.unquote_to_bytes(captured).decode("utf-8")     # generator keeps these valid
+    root = os.path.abspath(fixture_root())
+    p = os.path.abspath(os.path.join(root, arg))
+    if not (p + os.path.sep).startswith(root + os.path.sep):
+        return "FsOutside", False
+    if os.path.isdir(p):
+        return "FsDir", os.path.isfile(os.path.join(p, "index.html"))
+    if not os.path.exists(p):
+        return "FsMissing", False
+    return "FsFile", False
+
+
+def gtext(s):
+    return G.gbytes(s)
+
+
+def coq_kind(case):
+    k = case["kind"]
+    if k in ("KRemove", "KAdd"):
+        return k
+    if k == "KStatic":
+        fs, ix = fs_facts(case)
+        return "(KStatic %s %s %s)" % (G.gbool(bool(case["default"])), fs, G.gbool(ix))
+    if k == "KAuth":
+        return "(KAuth %s %s)" % (G.goption(case["login"], gtext, "text"), G.gbool(bool(case.get("user"))))
+    if k == "KRedirect":
+        return "(KRedirect %s %s %s %s)" % (G.gbool(bool(case["flush"])), gtext(case["url"]), G.gbool(bool(case["permanent"])),
+                                           G.goption(case["status"], G.gn, "N"))
+    raise ValueError(k)
 
 
 def coq_input(case):
-    path, query = parts(case)
-    login = case["login"]
-    absl = bool(urllib.parse.urlsplit(login).scheme)
-    full = "http://h.example" + case["target"]
-    return "(%s, %s, %s, %s, %s, %s, %s, %s)" % (case["kind"], G.gbytes(case["method"]), G.gbytes(path), G.gbytes(query),
-                                               G.gbytes(login), G.gbool(absl), G.gbytes(full), G.gbytes(case["target"]))
+    return "(%s, %s, %s, %s)" % (coq_kind(case), gtext(case["method"]), gtext(case["target"]), gtext(case["host"]))
 
 
 def py_check(case, o):
@@ -124,78 +212,171 @@ def py_check(case, o):
     loc = o[1]
     if loc is None:
         return True
-    if case["kind"] == "KAuth":
-        return loc.startswith(case["login"])
+    loc = bytes(loc).decode("latin-1")
+    k = case["kind"]
+    if k == "KRedirect":
+        return True
+    if k == "KAuth":
+        if case["login"] is None:
+            return False
+        lg = case["login"].encode("utf-8").decode("latin-1")
+        if loc == lg:
+            return True
+        return loc.startswith(lg + "?next=") and re.fullmatch(r"[A-Za-z0-9_.~%+-]*", loc[len(lg) + 6:]) is not None
     sp = urllib.parse.urlsplit(loc)
-    return not loc.startswith("//") and not sp.scheme and not sp.netloc
+    ok = not loc.startswith("//") and not sp.scheme and not sp.netloc
+    if case["target"].startswith("/"):
+        ok = ok and loc.startswith("/")
+    return ok
 
 
-SEGS = ["/", "//", "///", "a", "b.c", "evil.com", "dir", "\\", "/\\", "%2f", "%2F%2F", "..", ".", "x:y", "@", ";", "caf\xe9", "+", "%20", "~"]
-PREFIXES = ["", "", "", "/", "//", "///", "/\\", "http://e.c", "http:", "HTTPS://E.C/", "x:"]
-QUERIES = ["", "", "q=1", "next=//evil.com", "a=b&c=/", "?", "x:y", "%0d%0a", "caf\xe9=+"]
+SEGS = ["/", "//", "///", "a", "b.c", "evil.com", "dir", "\\", "/\\", "%2f", "%2F%2F", "..", ".", "x:y", "@", ";", "caf\xe9", "+", "%20", "~", "#f", "%5C", "\xff"]
+PREFIXES = ["", "", "", "/", "/", "//", "///", "/\\", "\\", "\\\\", "/\\/", "http://e.c", "http:", "HTTPS://E.C/", "x:", "a+b-c.1:", "1x:", "*"]
+QUERIES = ["", "", "q=1", "next=//evil.com", "a=b&c=/", "?", "x:y", "%0d%0a", "caf\xe9=+", "a=\\\\e.c"]
+STATIC_SEGS = ["dir", "dir", "sub", "file.txt", "nope", "..", ".", "%2e%2e", "%2E", "index.html", "d%69r", ""]
+REDIRECT_URLS = ["/x", "/x", "//evil.com/", "http://e.c/a?b#c", "", "rel/path", "/caf\xe9", "/登录", "/\U0001F600", "/\ud800", "/x\r\nSet-Cookie: a=b",
+                 "/\x7f", "/\t", "/\x85", "/a b", "/\x00", "/\x1f", "\\\\e.c", "/\udfff", "/", "/߿ࠀ￿\U00010000\U0010ffff"]
+STATUSES = [None, None, None, 301, 302, 303, 304, 307, 308, 300, 399, 299, 400, 0, 200, 1000]
 
 
-def mk(kind, method, target, login=LOGINS[0]):
-    return {"kind": kind, "method": method, "target": target, "login": login}
+def mk(kind, method, target, host="h.example", **kw):
+    c = {"kind": kind, "method": method, "target": target, "host": host}
+    if kind == "KAuth":
+        c["login"] = kw.get("login", LOGINS[0])
+        c["user"] = bool(kw.get("user", False))
+    elif kind == "KStatic":
+        c["default"] = bool(kw.get("default", True))
+    elif kind == "KRedirect":
+        c["url"] = kw.get("url", "/x")
+        c["permanent"] = bool(kw.get("permanent", False))
+        c["status"] = kw.get("status")
+        c["flush"] = bool(kw.get("flush", False))
+    return c
 
 
 def corpus_cases():
     return [mk("KRemove", "GET", "//evil.com/"), mk("KAdd", "GET", "//evil.com"), mk("KRemove", "GET", "/a//?x=1"),
-            mk("KStatic", "GET", "//dir"), mk("KStatic", "GET", "/dir"), mk("KRemove", "GET", "http://e.c/a/"),
-            mk("KAuth", "GET", "/p?x=//evil.com", LOGINS[2]), mk("KAuth", "POST", "/p"), mk("KRemove", "POST", "/a/")]
+            mk("KRemove", "GET", "///evil.com/"), mk("KAdd", "HEAD", "///evil.com"),
+            mk("KStatic", "GET", "//dir"), mk("KStatic", "GET", "/dir"), mk("KStatic", "GET", "/dir", default=False),
+            mk("KStatic", "GET", "/dir/sub"), mk("KStatic", "GET", "/dir/sub/"), mk("KStatic", "GET", "/../.."), mk("KStatic", "POST", "/dir"),
+            mk("KStatic", "HEAD", "/dir/../dir?x=//e.c"), mk("KRemove", "GET", "http://e.c/a/"),
+            mk("KRemove", "GET", "/\\evil.com/"), mk("KAdd", "GET", "/\\evil.com"),
+            mk("KAuth", "GET", "/p?x=//evil.com", login=LOGINS[2]), mk("KAuth", "POST", "/p"), mk("KRemove", "POST", "/a/"),
+            mk("KAuth", "GET", "//evil.com/private"), mk("KAuth", "GET", "//user@evil.com:8080/x", login="login"),
+            mk("KAuth", "GET", "/p", login=None), mk("KAuth", "GET", "/p", user=True), mk("KAuth", "HEAD", "/p?a=b%20c+d", "h.example:8080", login=LOGINS[2]),
+            mk("KRemove", "PUT", "/a/"), mk("KRemove", "get", "/a/"), mk("KRemove", "GET", "/a b/"), mk("KRemove", "GET", "/a/", "a,b"),
+            mk("KRedirect", "GET", "/q", url="/x", status=307), mk("KRedirect", "POST", "/q", url="/x", permanent=True),
+            mk("KRedirect", "GET", "/q", url="/x", status=200), mk("KRedirect", "GET", "/q", url="/x", flush=True),
+            mk("KRedirect", "GET", "/q", url="/x\r\nSet-Cookie: a=b"), mk("KRedirect", "GET", "/q", url="/\ud800")]
 
 
 def gen_target(rng, kind):
     if kind == "KStatic":
-        t = rng.choice(["/", "//", "///", "", "http://e.c/", "http://e.c//"]) + "dir" + rng.choice(["", "", "/", "//"])
+        lead = rng.choice(["/", "/", "/", "//", "///", "", "http://e.c/", "http://e.c//", "http://e.c"])
+        t = lead + "/".join(rng.choice(STATIC_SEGS) for _ in range(rng.randrange(1, 4))) + rng.choice(["", "", "/", "//"])
         if not t.startswith(("/", "h")):
             t = "/" + t
-        return t
-    t = rng.choice(PREFIXES) + "".join(rng.choice(SEGS) for _ in range(rng.randrange(4))) + rng.choice(["", "/", "//", "/"])
-    if not t:
-        t = "/"
+    else:
+        t = rng.choice(PREFIXES) + "".join(rng.choice(SEGS) for _ in range(rng.randrange(4))) + rng.choice(["", "/", "//", "/"])
+        if not t:
+            t = "/"
     q = rng.choice(QUERIES)
     if q:
         t += "?" + q
     return t
 
 
+def gen_one(rng):
+    kind = rng.choice(["KRemove", "KAdd", "KRemove", "KAdd", "KStatic", "KStatic", "KAuth", "KAuth", "KRedirect"])
+    method = rng.choice(METHODS) if rng.random() < 0.85 else rng.choice(ODD_METHODS)
+    host = rng.choice(HOSTS) if rng.random() < 0.93 else rng.choice(BAD_HOSTS)
+    target = gen_target(rng, kind)
+    if rng.random() < 0.03:     # malformed request target
+        target = rng.choice(["", "/a b/", "/a\x01/", "/a\x7f", " /a/", "/a/ "]) if kind != "KStatic" else "/dir x"
+    kw = {}
+    if kind == "KAuth":
+        kw = {"login": rng.choice(LOGINS), "user": rng.random() < 0.08}
+    elif kind == "KStatic":
+        kw = {"default": rng.random() < 0.8}
+    elif kind == "KRedirect":
+        kw = {"url": rng.choice(REDIRECT_URLS), "permanent": rng.random() < 0.4, "status": rng.choice(STATUSES), "flush": rng.random() < 0.1}
+    return mk(kind, method, target, host, **kw)
+
+
 def gen_cases(rng, tier):
     out = []
-    n = 500 if tier == "quick" else 5000
+    n = 520 if tier == "quick" else 4000
     for _ in range(n):
-        kind = rng.choice(KINDS)
-        meths = ["GET", "HEAD"] if kind == "KStatic" else ["GET", "GET", "HEAD", "POST"]
-        out.append(mk(kind, rng.choice(meths), gen_target(rng, kind), rng.choice(LOGINS)))
-    if tier == "thorough":   # exhaustive small scope: every target of <= 4 symbols over {/, a, \, :}
-        import itertools
-        for k in range(1, 5):
-            for tup in itertools.product("/a\\:", repeat=k):
+        out.append(gen_one(rng))
+    # every login URL x {ordinary, //host} request path; every status x permanent; every odd method
+    for lg in LOGINS:
+        for t in ("/p?a=1", "//evil.com/p"):
+            out.append(mk("KAuth", "GET", t, login=lg))
+    for st in STATUSES[2:]:
+        out.append(mk("KRedirect", rng.choice(["GET", "HEAD", "POST"]), "/q", url="/x", status=st, permanent=rng.random() < 0.5))
+    for m in ODD_METHODS:
+        out.append(mk(rng.choice(["KRemove", "KAdd", "KAuth"]), m, rng.choice(["/a", "/a/"])))
+    if tier == "thorough":
+        # exhaustive small scopes
+        for k in range(1, 5):           # every target of <= 4 symbols over {/, a, \, :, ?}
+            for tup in itertools.product("/a\\:?", repeat=k):
                 t = "".join(tup)
                 for kind in ("KRemove", "KAdd"):
                     out.append(mk(kind, "GET", t))
+                if k <= 3:
+                    out.append(mk("KRemove", "HEAD", t))
+                    out.append(mk("KAdd", "POST", t))
+                    out.append(mk("KAuth", "GET", t, login="/login"))
+                    out.append(mk("KAuth", "GET", t, login="login"))
+        segs = ["dir", "sub", "..", "file.txt", "nope", "%2e%2e", ""]
+        for k in range(0, 4):           # every static path of <= 3 segments over the fixture vocabulary
+            for tup in itertools.product(segs, repeat=k):
+                for lead in ("/", "//"):
+                    for tail in ("", "/"):
+                        t = lead + "/".join(tup) + tail
+                        out.append(mk("KStatic", "GET", t, default=True))
+                        if lead == "/":
+                            out.append(mk("KStatic", "HEAD", t, default=False))
+        for url in REDIRECT_URLS:       # every redirect URL x status x permanent
+            for st in STATUSES[2:]:
+                for perm in (False, True):
+                    out.append(mk("KRedirect", "GET", "/q", url=url, status=st, permanent=perm))
+        for h in HOSTS + BAD_HOSTS:
+            for lg in ("/login", "http://sso.example/login"):
+                out.append(mk("KAuth", "GET", "/p?q=1", h, login=lg))
     return out
+
+
+EXHAUSTIVE = {"quick": False, "thorough": False}
 
 
 def nontrivial(case, o):
     if isinstance(o, list) and len(o) == 2 and (o[1] is not None or o[0] != 200):
-        return (case["kind"], case["method"], case["target"], case["login"] if case["kind"] == "KAuth" else "")
+        return repr(sorted(case.items()))
     return None
 
 
 def classify(case, o):
     yield "kind=" + case["kind"]
-    yield "method=" + case["method"]
-    path, query = parts(case)
-    yield "lead=" + ("//" if path.startswith("//") else "/" if path.startswith("/") else "scheme" if ":" in path.split("/")[0] else "other")
+    m = case["method"]
+    yield "method=" + (m if m in ("GET", "HEAD", "POST") else "other")
+    path = case["target"].partition("?")[0]
+    query = case["target"].partition("?")[2]
+    yield "lead=" + ("//" if path.startswith("//") else "/\\" if path.startswith("/\\") else "/" if path.startswith("/")
+                     else "scheme" if ":" in path.split("/")[0] else "other")
     yield "query=" + ("yes" if query else "no")
+    if case["kind"] == "KAuth":
+        lg = case["login"]
+        yield "login=" + ("none" if lg is None else "query" if "?" in lg else "absolute" if urllib.parse.urlsplit(lg).scheme else "relative")
     if isinstance(o, list) and o and isinstance(o[0], int):
         yield "status=%d" % o[0]
+        if len(o) == 2:
+            yield "location=" + ("yes" if o[1] is not None else "no")
 
 
 def signature(case, o):
-    path, _ = parts(case)
-    if case["kind"] != "KAuth" and not path.startswith("/") and urllib.parse.urlsplit(path).scheme:
+    path = case["target"].partition("?")[0]
+    if case["kind"] in ("KRemove", "KAdd", "KStatic") and not path.startswith("/") and urllib.parse.urlsplit(path).scheme:
         return "absolute-form-target"
     return "other"
 
@@ -206,15 +387,24 @@ def shrink(case):
         yield dict(case, target=t.split("?")[0])
     for i in range(len(t)):
         c = t[:i] + t[i + 1:]
-        if c and (case["kind"] != "KStatic" or "dir" in c):
+        if c and (case["kind"] != "KStatic" or "%" not in t):
             yield dict(case, target=c)
+    if case["host"] != "h.example":
+        yield dict(case, host="h.example")
+    if case["method"] not in ("GET",):
+        yield dict(case, method="GET")
 
 
-LEVEL_TEXT = ("Machine-checked proof, for every method/path/query, that the Location computed by @removeslash, @addslash and the static directory "
-              "redirect starts with exactly one '/' whenever the request path does (origin-form), is never protocol-relative for ANY path, and that "
-              "@authenticated redirects only to the configured login URL plus an inert percent-encoded next value; the decision functions are tied to "
-              "web.py by running real handlers behind HTTPServer over a fake stream on generated request targets.")
-LEVEL_NOTE = ("Trusted: Coq kernel/vm_compute, harness, urlsplit for the login-URL scheme test. Open known finding: an absolute-form request target "
-              "('GET http://e.c/a/') is echoed into a scheme-qualified Location (not inducible from a browser). Backslash forms that some browsers "
-              "normalise to '/' are generated and compared but are outside the property text.")
-TECHNIQUE = "Coq proofs over list-of-code-point decision functions (prefix/suffix lemmas) + differential correspondence through real handlers"
+LEVEL_TEXT = ("Machine-checked proof, for every method/request target/Host, that the response computed by the modelled request path (request-line and Host "
+              "validation, partition at '?', method dispatch, @removeslash / @addslash / static directory redirect, RequestHandler.redirect) carries a "
+              "Location that starts with exactly one '/' whenever the target does (origin-form), is never protocol-relative for ANY target, is scheme-"
+              "qualified exactly when the target itself starts with 'scheme:', and is produced only for GET/HEAD with status 301; that @authenticated "
+              "redirects (302) only to the configured login URL, whose part before '?' does not depend on the request, plus a percent-encoded next value "
+              "that decodes back to the request URI (or full URL for an absolute login URL); and that redirect() emits status 3xx and a Location free of "
+              "control bytes. The decision functions are tied to web.py/httputil.py by running real handlers behind HTTPServer over a fake stream on "
+              "generated requests.")
+LEVEL_NOTE = ("Trusted: Coq kernel/vm_compute, harness, os.path facts for the static fixture, routing. Open known finding: an absolute-form request target "
+              "('GET http://e.c/a/') is echoed into a scheme-qualified Location (not inducible from a browser). Under the stricter reading that treats '\\' "
+              "as '/' (browser URL parsing) the statement is refuted for raw-backslash targets ('GET /\\evil.com/' -> 'Location: /\\evil.com'); browsers "
+              "normalise the backslash before sending, so this too needs a non-browser client; it is proved to be the only such case.")
+TECHNIQUE = "Coq proofs over list-of-code-point decision functions (prefix/suffix/scan lemmas, encode/decode round trip) + differential correspondence through real handlers"
